@@ -11,6 +11,7 @@ import torch
 from agilerl.algorithms.ppo import PPO
 
 from ..core import HarnessError
+from ..rand import seeded
 from . import c14_common as cm
 
 DISC = ["D1", "D2", "D3", "D4", "MD23", "MB3"]
@@ -74,8 +75,7 @@ def build(sid, kind, squash=False):
         nc = cm.net_config(kind)
         if squash:
             nc["squash_output"] = True
-        with torch.random.fork_rng():
-            torch.manual_seed(0)
+        with seeded(0):
             _AGENTS[key] = PPO(cm.obs_space(kind), cm.action_space(sid), net_config=nc)
     return _AGENTS[key]
 
